@@ -84,3 +84,9 @@ claim("C04", "exploration",
       "Generated class texts with multi-declarator clauses (own subscripts, modifications, comments), every prefix and prefix pair, type subscripts, interleaved public/protected sections, several (initial) equation/algorithm sections in any order, nested classes two deep, extends with modifiers and the four import forms are parsed by the committed parser (and the regenerated one when its ATN differs) and compared with the description; on a pickle clone one symbol is mutated and no other symbol may change; duplicate declarations must be rejected.",
       "expressions inside declarations and sections are compared by value (their shape is C03's subject); default-section visibility only has to be consistent and not PROTECTED",
       "DESIGN.md section 4, C04")
+
+claim("C24", "exploration",
+      "execution monitor on the generated SymPy module (recording stub runtime) + reference residual and classification comparison",
+      "Generated models (+ - * / ^, unary minus, der, sin/cos/tan, time, nested parenthesised sub-expressions, sub-component dotted names, names colliding with Python builtins / mangled names, discrete variables) are translated by the real SymPy generator; the module must compile and execute, every entry of eqs is evaluated numerically by substitution and compared with lhs-rhs of the flat equation, the six lists are compared with the flat classification as duplicate-free sets and distinct variables must have distinct symbols.",
+      "compute_fg is stubbed; names are compared modulo the backend's mangling; list order not compared",
+      "DESIGN.md section 4, C24")
